@@ -38,6 +38,11 @@ def targets(reg, repo, props=None, only=None):
                     out.append((q, k))
         else:
             out.append((q, None))
+    for name in reg.lemmas:
+        q = "lemma." + name
+        if only and not any(o in q for o in only):
+            continue
+        out.append((q, None))
     return out
 
 
@@ -62,8 +67,18 @@ def verify_one(job):
     try:
         reg = load_contracts()
         repo = Repo(opts.get("repo"))
-        c = reg.contracts[q]
         ex = Exec(repo, reg, SPEC)
+        if q.startswith("lemma."):
+            lm = reg.lemmas[q[6:]]
+            obs = ex.verify_lemma(lm)
+            for ob in obs:
+                discharge(ob, both=opts.get("both", False), use_cvc5=opts.get("cvc5", True))
+                res["obligations"].append({"name": ob.name, "kind": ob.kind, "props": ob.props, "verdict": ob.verdict, "backend": ob.backend,
+                                           "time": round(ob.time, 3), "line": None, "reason": ob.reason, "trace": []})
+            res["cover"] = ex.cover
+            res["wall"] = time.time() - t0
+            return res
+        c = reg.contracts[q]
         fi = repo.funcs.get(q)
         if fi is None:
             res["unsupported"] = f"target {q} not found in the repository (renamed or removed)"
@@ -97,6 +112,7 @@ def verify_one(job):
         res["assumed"] = sorted(ex.assumed)
         res["warnings"] = ex.warnings
         res["npaths"] = ex.npaths
+        res["cover"] = getattr(ex, "cover", None)
     except Exception:
         res["error"] = traceback.format_exc()
     res["wall"] = time.time() - t0
@@ -131,6 +147,10 @@ def run(props=None, only=None, both=False, cvc5=True, dump=False, repo_root=None
     if props:
         keep = []
         for q, fam in tg:
+            if q.startswith("lemma."):
+                if set(reg.lemmas[q[6:]].props) & set(props):
+                    keep.append((q, fam))
+                continue
             c = reg.contracts[q]
             tags = set(c.props)
             for e in c.ensures:
@@ -173,7 +193,9 @@ if __name__ == "__main__":
         d = sum(1 for o in r["obligations"] if o["verdict"] == "discharged")
         tot += n
         dis += d
-        print(f"{tag}: {d}/{n} discharged, {r.get('wall',0):.1f}s paths={r.get('npaths')}")
+        cv = r.get("cover") or {}
+        vac = " VACUOUS?" if cv and cv.get("exits") and not (cv.get("reachable") or cv.get("unknown")) else ""
+        print(f"{tag}: {d}/{n} discharged, {r.get('wall',0):.1f}s paths={r.get('npaths')} cover={cv.get('reachable')}+{cv.get('unknown')}?/{cv.get('exits')}{vac}")
         for w in r["warnings"]:
             print("   warn:", w)
         for o in r["obligations"]:
